@@ -46,6 +46,17 @@ ONE_SIDED_OK = {
     ("wsgi", "middleware", "ensure_next.generator"): "forces the first chunk (WSGI only)",
 }
 
+def _gateway_twin(we, ae) -> bool:
+    """class attributes that hold the NAME of the gateway entry a shared template method reads or writes: the environ key on one side,
+    the corresponding scope key on the other (sibling.KEYMAP), or the names of the interface's own response classes"""
+    from ..sibling import KEYMAP
+    if isinstance(we, ast.Constant) and isinstance(ae, ast.Constant) and isinstance(we.value, str) and isinstance(ae.value, str):
+        return KEYMAP.get(we.value) == ae.value
+    if isinstance(we, ast.Name) and isinstance(ae, ast.Name):
+        return we.id == ae.id  # the same-named class of each interface (Response, FileResponse ...)
+    return False
+
+
 def _one_sided_moved(side: str, mod: str, q: str, present) -> str:
     """reason of a sanctioned one-sided definition that now lives in another sibling module of the same side (and no longer in its old one)"""
     for (s_, m_, q_), why in ONE_SIDED_OK.items():
@@ -304,6 +315,8 @@ def run(p: Program, rep: Report, tier: str) -> None:
                     rep.ok("R4.3", f"{cname}.{k} equal on both sides")
                 elif cname == "SendEventResponse" and k == "required_headers" and _only_connection_differs(F, wc, ac):
                     rep.ok("R4.3", "SendEventResponse.required_headers differ only by the hop-by-hop Connection header (the statement's sanctioned difference)")
+                elif _gateway_twin(wc.attrs.get(k), ac.attrs.get(k)):
+                    rep.ok("R4.3", f"{cname}.{k}: the two sides name corresponding gateway entries ({wa.get(k)} <-> {aa.get(k)})")
                 elif k == "thread_pool" and cname == "SendEventResponse":
                     rep.ok("R4.3", "SendEventResponse.thread_pool: WSGI relay thread pool (no observable response difference)")
                 else:
